@@ -3,6 +3,7 @@
 //! Kept minimal on purpose: every private name used here is a way for a refactoring to break the harness build.
 use super::*;
 
+#[cfg(verif_acc_eps)]
 pub fn svd_epsilon<Model, const MRHS: bool, const PAR: bool>(p: &LevMarProblem<Model, MRHS, PAR>) -> <Model::ScalarType as ComplexField>::RealField
 where
     Model: SeparableNonlinearModel,
